@@ -312,6 +312,10 @@ def strategy(focus="membership"):
                 act = draw(st.sampled_from(["stale", "drop", "delay"]))
             faults.append({"sel": sel, "k": draw(st.integers(0, 8)), "act": act, "code": draw(st.sampled_from(ERR[sel])),
                            "delay": draw(st.sampled_from([0.05, 0.4, 1.2]))})
+            if focus == "membership" and sel == "offset_fetch" and act == "error" and draw(st.booleans()):
+                # a committed-offset lookup refused for good (GROUP_AUTHORIZATION_FAILED): the error goes to the
+                # application; the member stays a member and keeps up with later rebalances
+                faults[-1]["code"] = 30
         if draw(st.integers(0, 2)) == 0:
             # a burst: the same kind of request is refused several times in a row (a coordinator that moved and is
             # still loading answers NOT_COORDINATOR, then COORDINATOR_NOT_AVAILABLE / LOAD_IN_PROGRESS)
@@ -400,9 +404,35 @@ def slow_first_join_cases(shard, nshards):
                                "env": [], "run_for": 3.0, "lat": [0.001], "chunks": [0], "rng_seed": 13}
 
 
+def refused_lookup_cases(shard, nshards):
+    """The k-th committed-offset lookup of the group is refused for good (GROUP_AUTHORIZATION_FAILED: the error is handed
+    to the application, the lookup task of that member is over); later a second member joins or leaves.  Every member
+    still has to follow the rebalance and heartbeat in the new generation."""
+    i = 0
+    for k in (0, 1, 2, 3):
+        for start1 in (0.3, 0.8, 1.5):
+            for leave in (False, True):
+                for assignor in ("range", "sticky"):
+                    i += 1
+                    if i % nshards != shard:
+                        continue
+                    members = [{"topics": ["t0"], "start_at": 0.0, "callback_delay": 0, "ops": [], "loop_poll": "getmany"},
+                               {"topics": ["t0"], "start_at": start1, "callback_delay": 0, "loop_poll": "getmany",
+                                "ops": ([["sleep", 0.6], ["stop"]] if leave else [])}]
+                    yield {"cfg": {"assignors": [assignor], "session_timeout_ms": 1000, "heartbeat_interval_ms": 100,
+                                   "rebalance_timeout_ms": 1500, "retry_backoff_ms": 20, "request_timeout_ms": 2000,
+                                   "auto_commit": True, "auto_commit_interval_ms": 200, "metadata_max_age_ms": 1000,
+                                   "max_poll_interval_ms": 300000},
+                           "cluster": {"nodes": 1, "topics": {"t0": 2}, "join_max": 5, "group_coord": 0, "initial": [3, 2]},
+                           "members": members, "kills": [],
+                           "faults": [{"sel": "offset_fetch", "k": k, "act": "error", "code": 30, "delay": 0.05}],
+                           "env": [], "run_for": 3.5, "lat": [0.001], "chunks": [0], "rng_seed": 17}
+
+
 def campaigns(tier):
     th = tier == "thorough"
-    return [Campaign("slow_first_join", "enum", execute=execute, cases=slow_first_join_cases, exhaustive=True,
+    return [Campaign("refused_lookup", "enum", execute=execute, cases=refused_lookup_cases, exhaustive=True, setup=GS.setup),
+            Campaign("slow_first_join", "enum", execute=execute, cases=slow_first_join_cases, exhaustive=True,
                      setup=GS.setup),
             Campaign("group_sim", "hyp", execute=execute, strategy=strategy, examples=12000 if th else 1280,
                      setup=GS.setup, max_wall=1000 if th else 110, shrink_wall=40),
